@@ -6,8 +6,9 @@ times; `open(path, "w"/"wb")` creates/truncates at open time; reading a
 missing file raises FileNotFoundError; remove/rename/replace/makedirs/
 exists/access/getmtime; every operation is logged.  `os.path` string
 functions are the real (pure) posixpath ones.  FakeSubprocess runs the
-"converters" synchronously: `pdflatex ... x.tex` writes x.pdf = PDF(<tex>),
-`pdftoppm ... x.pdf x` writes x.png = PNG(<pdf>).
+"converters" synchronously: `pdflatex ... x.tex` writes x.pdf = PDF(<tex>|<content of the data file
+named by CSV=<path> in the tex>), `pdftoppm x.pdf x -png` writes
+x.png = PNG(<pdf>).
 """
 import contextlib
 import copy
@@ -34,7 +35,7 @@ class FakeFile(object):
         self.fs.log.append(("write", self.path))
         return len(data)
 
-    def read(self):
+    def read(self, size=-1):
         ent = self.fs.files[self.path]
         self.fs.log.append(("read", self.path))
         return ent["content"]
@@ -135,6 +136,7 @@ class FakeOS(object):
     F_OK = 0
     sep = "/"
     devnull = "/dev/null"
+    error = OSError
 
     def __init__(self, fs):
         self._fs = fs
@@ -204,24 +206,26 @@ class FakeSubprocess(object):
         if prog in ("pdflatex", "xelatex", "lualatex"):
             tex = [c for c in cmd if c.endswith(".tex")][-1]
             outdir = None
-            for c in cmd:
-                if c.startswith("-output-directory"):
-                    outdir = c.split("=", 1)[1] if "=" in c else None
-            if outdir is None and "-output-directory" in cmd:
+            if "-output-directory" in cmd:
                 outdir = cmd[cmd.index("-output-directory") + 1]
             base = posixpath.basename(tex)[:-4]
             d = outdir if outdir is not None else posixpath.dirname(tex)
             pdf = posixpath.join(d, base + ".pdf") if d else base + ".pdf"
             src = self._fs.files.get(tex)
-            content = "PDF(" + (src["content"] if src else "<missing>") + ")"
+            text = src["content"] if src else "<missing>"
+            # the document includes the data file it names (CSV=<path>)
+            inc = ""
+            if "CSV=" in text:
+                path = text.split("CSV=", 1)[1].split("]", 1)[0]
+                ent = self._fs.files.get(path)
+                inc = "|" + (ent["content"] if ent else "<missing>")
+            content = "PDF(" + text + inc + ")"
             self._fs.files[pdf] = {"content": content, "records": [], "mtime": 0}
             self._fs.touch(pdf)
-        elif prog in ("pdftoppm", "convert"):
-            pdf = [c for c in cmd if c.endswith(".pdf")][-1]
-            if prog == "pdftoppm":
-                out = cmd[-1] + ".png"
-            else:
-                out = cmd[-1]
+        elif prog == "pdftoppm":
+            pdf, base = cmd[1], cmd[2]
+            fmt = [c[1:] for c in cmd[3:] if c.startswith("-") and c != "-singlefile"]
+            out = base + "." + (fmt[0] if fmt else "ppm")
             src = self._fs.files.get(pdf)
             content = "PNG(" + (src["content"] if src else "<missing>") + ")"
             self._fs.files[out] = {"content": content, "records": [], "mtime": 0}
@@ -290,3 +294,27 @@ def world(modules, with_subprocess=False):
 
 
 _ABSENT = object()
+
+
+class FakeTemplate(object):
+    def __init__(self, env, name):
+        self.env = env
+        self.name = name
+
+    def render(self, ctx, *a, **k):
+        text = self.env.templates.get(self.name, "<no template>")
+        path = ctx.get("output", {}).get("filepath", "<nopath>") if isinstance(ctx, dict) else "<data>"
+        return "TEX[%s|CSV=%s]" % (text, path)
+
+
+class FakeJinjaEnv(object):
+    """The `environment=` argument of RenderLaTeX: get_template(name).render(ctx)
+    = TEX[<current template text>|CSV=<ctx.output.filepath>]."""
+
+    def __init__(self):
+        self.templates = {}
+        self.requests = []
+
+    def get_template(self, name):
+        self.requests.append(name)
+        return FakeTemplate(self, name)
